@@ -144,6 +144,11 @@ void run(Src &src, Case &c)
     size_t pi = static_cast<size_t>(src.below(forms.size()));
     // second choice: plain pairs, or triples with a fixed middle operator (unary minus / not / divide) — the nestings named in the property
     size_t variant = static_cast<size_t>(src.below(4));
+    // fifth variant (a unary plus in between, which generates no code of its own), decided by a further choice made only for
+    // variant 0 so that earlier tapes decode as before
+    if (variant == 0 && src.below(2) == 1) {
+        variant = 4;
+    }
     const Form &parent = forms[pi];
     ModelSpec spec;
     spec.name = "sweep";
@@ -165,7 +170,7 @@ void run(Src &src, Case &c)
     std::vector<Eq> eqs;
     std::vector<std::pair<Expr, Expr>> math;
     long skipped = 0;
-    static const Form middleForms[] = {{Op::MINUS, 1, "1"}, {Op::NOT, 1, ""}, {Op::DIVIDE, 2, ""}};
+    static const Form middleForms[] = {{Op::MINUS, 1, "1"}, {Op::NOT, 1, ""}, {Op::DIVIDE, 2, ""}, {Op::PLUS, 1, "1"}};
     for (int pos = 0; pos < parent.arity; ++pos) {
         for (const auto &child : forms) {
             Expr e;
